@@ -20,7 +20,7 @@ from src.diagnostic.benchmark_alignment import BenchmarkAlignedPair as BP, Bench
 RULE = ("(a) all lists of n calls (n bound) sorted by (chromosome, refStop), each call = type {insertion,deletion} x chromosome {1,2} x "
         "(refStart<=refStop) over {0,b-1,b,b+1,2b,2b+1}, blur b=4, single-type and mixed lists; (b) the same lists (scaled to b=30000) "
         "through write_indel_file; (c) 3-pair alignments x breakpoint x (reference gap, query gap) pairs around the thresholds x strand x "
-        "both finders, plus runs with two alignments and (segment finder) two join points per molecule in either order; non-trivial = (a,b) two neighbouring calls lie within the blur distance, (c) |diff| within 1 of a threshold")
+        "both finders, plus molecule_indels.run end to end on files (1-3 joined molecules on two references, query ids that also occur as reference ids), plus runs with two alignments and (segment finder) two join points per molecule in either order; non-trivial = (a,b) two neighbouring calls lie within the blur distance, (c) |diff| within 1 of a threshold")
 ASSUMPTIONS = ["call rows have the 8 fields the finders emit; query ids are distinct",
                "sv modules are imported flat from $COMA_REPO/sv as the scripts themselves do"]
 
@@ -146,6 +146,10 @@ def check_finder(which, bp, d1, d2, rev, acc, gq=150000):
     diff = abs(rs - re_) - abs(qs - qe)
     if res is not None:
         calls = [(k, c) for k, v in res.items() for c in v]
+        if len(calls) > 8:
+            # far more calls than join points (e.g. calls of earlier runs coming back): one finding, not one per call
+            found.append(('more-than-one-call-for-one-breakpoint', 'diff %s -> %d calls' % (diff, len(calls)), which, {}))
+            calls = []
         for k, c in calls:
             if c[0] != k:
                 found.append(('call-filed-under-other-type', str(c), which, {}))
@@ -210,6 +214,10 @@ def check_finder_multi(which, specs, acc, gq=150000):
     ncalls = 0
     if res is not None:
         seen = set()
+        if sum(len(v) for v in res.values()) > 4 * len(expected) + 4:
+            found.append(('call-for-no-join-point', '%d calls for %d join points' % (sum(len(v) for v in res.values()), len(expected)), which,
+                          {'alignments': len(specs)}))
+            res = {}
         for k, v in res.items():
             for c in v:
                 ncalls += 1
@@ -240,6 +248,121 @@ def check_finder_multi(which, specs, acc, gq=150000):
             acc.viol(f[0], case, f[1], f[2], f[3])
         acc.sample(case)
     return found
+
+
+# ------------------------------------------------------------------------------------------------
+# end to end: molecule_indels.run on files (two references, query ids that also occur as reference ids)
+
+XHEAD = ("# XMAP File Version:\t0.2\n#h\tXmapEntryID\tQryContigID\tRefContigID\tQryStartPos\tQryEndPos\tRefStartPos\tRefEndPos\tOrientation\t"
+         "Confidence\tHitEnum\tQryLen\tRefLen\tAlignedRest\tLabelChannel\tAlignment\n"
+         "#f\tint\tint\tint\tfloat\tfloat\tfloat\tfloat\tstring\tfloat\tstring\tfloat\tfloat\tstring\tint\tstring\n")
+E2E_REF = [100000 + i * 40000 for i in range(16)]
+E2E_QIDS = (1, 7, 2)
+E2E_D = (2001, -2001, 5000)
+
+
+def _xmap(records):
+    out = [XHEAD]
+    for i, (qid, rid, rev, pairs, rest) in enumerate(records):
+        out.append('%d\t%d\t%d\t0.0\t1.0\t0.0\t1.0\t%s\t10.00\t%dM\t1.0\t1.0\t%s\t1\t%s\n' % (
+            i + 1, qid, rid, '-' if rev else '+', len(pairs), rest, ''.join('(%d,%d)' % p for p in pairs)))
+    return ''.join(out)
+
+
+def _describe_e2e(spec, rev, acc=None):
+    return dict(kind='finder-files', molecules=[list(x) for x in spec], reverse=rev)
+
+
+@core.guarded(_describe_e2e)
+def check_files(spec, rev, acc):
+    """spec: [(query id, reference id, indel length d)] - each molecule is aligned in two parts of three labels that were joined"""
+    import argparse
+    from mc import cmaptext
+    d_ = os.path.join(core.scratch_dir(), 'c20-files-%d' % os.getpid())
+    os.makedirs(d_, exist_ok=True)
+    used = {}
+    qmaps, joined, firsts, seconds, expected = [], [], [], [], []
+    for qid, rid, d in spec:
+        a = used.get(rid, 0)
+        used[rid] = a + 5
+        r = E2E_REF[a:a + 6]
+        fpos = [500.0 + (r[i] - r[0]) for i in range(3)] + [500.0 + (r[i] - r[0]) - d for i in range(3, 6)]
+        if not rev:
+            qpos = fpos
+            pairs = [(a + 1 + i, 1 + i) for i in range(6)]
+        else:
+            qpos = sorted(fpos[-1] + 500.0 - p for p in fpos)
+            pairs = [(a + 1 + i, 6 - i) for i in range(6)]
+        qmaps.append((qid, qpos[-1] + 700.0, qpos))
+        joined.append((qid, rid, rev, pairs, False))
+        firsts.append((qid, rid, rev, pairs[:3], False))
+        seconds.append((qid, rid, rev, pairs[3:], True))
+        rs, re_ = E2E_REF[pairs[2][0] - 1], E2E_REF[pairs[3][0] - 1]
+        qs, qe = qpos[pairs[2][1] - 1], qpos[pairs[3][1] - 1]
+        expected.append((qid, rid, rs, re_, qs, qe, abs(rs - re_) - abs(qs - qe)))
+    paths = {k: os.path.join(d_, k) for k in ('r.cmap', 'q.cmap', 'j.xmap', 'f.xmap', 's.xmap', 'out.txt')}
+    with open(paths['r.cmap'], 'w') as f:
+        f.write(cmaptext.text([(1, E2E_REF[-1] + 5000.0, [float(x) for x in E2E_REF]), (2, E2E_REF[-1] + 9000.0, [float(x) for x in E2E_REF])]))
+    with open(paths['q.cmap'], 'w') as f:
+        f.write(cmaptext.text(qmaps))
+    for k, recs in (('j.xmap', joined), ('f.xmap', firsts), ('s.xmap', seconds)):
+        with open(paths[k], 'w') as f:
+            f.write(_xmap(recs))
+    if os.path.exists(paths['out.txt']):
+        os.remove(paths['out.txt'])
+    found = []
+    case = _describe_e2e(spec, rev)
+    sig = {'molecules': min(len(spec), 2)}
+    rows = None
+    try:
+        molecule_indels.run(argparse.Namespace(referenceFile=paths['r.cmap'], queryFile=paths['q.cmap'], joinedFile=paths['j.xmap'],
+                                               firstFile=paths['f.xmap'], secondFile=paths['s.xmap'], outputFile=paths['out.txt']))
+        rows = [l.rstrip('\n').split('\t') for l in open(paths['out.txt']) if not l.startswith('#')]
+    except Exception as e:
+        found.append(('finder-run-exception', '%s: %s' % (type(e).__name__, str(e)[:200]), 'molecule', sig))
+    if rows is not None:
+        exp = {str(e[0]): e for e in expected if 2000 < abs(e[6]) < 100000}
+        seen = set()
+        for r in rows:
+            if len(r) != 9:
+                found.append(('output-row-shape', str(r), 'molecule', sig))
+                continue
+            if ',' in r[4]:
+                continue        # merged calls are judged by the clustering layers
+            e = exp.get(r[4])
+            if e is None:
+                found.append(('call-for-no-join-point', 'row %s; molecules %s' % (r, spec), 'molecule', sig))
+                continue
+            if r[4] in seen:
+                found.append(('more-than-one-call-for-one-breakpoint', str(r), 'molecule', sig))
+            seen.add(r[4])
+            got = (int(r[1]), float(r[2]), float(r[3]), float(r[5]), float(r[6]), float(r[7]))
+            want = (e[1], float(e[2]), float(e[3]), float(e[4]), float(e[5]), float(e[6]))
+            if got != want:
+                found.append(('call-coordinates', 'row %s, expected chromosome/ref/query/length %s' % (r, want), 'molecule', sig))
+            if (r[0] == 'insertion') != (e[6] < 0):
+                found.append(('type-sign', str(r), 'molecule', sig))
+    if acc is not None:
+        acc.evals += 1
+        acc.transitions += len(spec) + 4
+        acc.state(('ff', tuple(tuple(r[:2] + r[4:5]) for r in rows or ())))
+        if any(q in (1, 2) for q, _, _ in spec):
+            acc.nontriv(('ff', tuple(spec), rev))
+            acc.classes['query-id-equals-a-reference-id'] += 1
+        for f in found:
+            acc.viol(f[0], case, f[1], f[2], f[3])
+        acc.sample(case)
+    return found
+
+
+def file_specs():
+    for k in (1, 2, 3):
+        for qids in itertools.permutations(E2E_QIDS, k):
+            if list(qids) != sorted(qids, key=E2E_QIDS.index):
+                continue
+            for rids in itertools.product((1, 2), repeat=k):
+                for ds in itertools.product(E2E_D, repeat=k):
+                    yield [(q, r, d) for q, r, d in zip(qids, rids, ds)]
 
 
 def sorted_lists(n):
@@ -317,7 +440,30 @@ class Clusters(core.Layer):
         return check_finder(case['finder'], case['breakpoint'], case['ref_delta'][0], case['ref_delta'][1], case['reverse'], None, case.get('query_gap', 150000))
 
 
+class FinderFiles(core.Layer):
+    name = 'files:molecule-finder'
+    optional = False
+
+    def __init__(self):
+        self.specs = list(file_specs())
+        self.chunk = 12
+        self.bounds = dict(molecules_per_run=[1, 3], query_ids=list(E2E_QIDS), reference_ids=[1, 2], indel_lengths=list(E2E_D), strands=['+', '-'])
+        self.rule = '%d molecule sets (ordered subsets of 3 query ids x reference assignment x indel lengths) x 2 strands through molecule_indels.run on files' % len(self.specs)
+
+    def nblocks(self):
+        return (len(self.specs) + self.chunk - 1) // self.chunk
+
+    def run_block(self, b, acc):
+        for spec in self.specs[b * self.chunk:(b + 1) * self.chunk]:
+            for rev in (False, True):
+                acc.seq += 1
+                check_files(spec, rev, acc)
+
+    def replay(self, case):
+        return check_files([tuple(x) for x in case['molecules']], case['reverse'], None)
+
+
 def layers(tier, seed):
     if tier == 'quick':
-        return [Clusters('n<=3', 3)]
-    return [Clusters('n<=3', 3), Clusters('n=4', 4, optional=True)]
+        return [Clusters('n<=3', 3), FinderFiles()]
+    return [Clusters('n<=3', 3), FinderFiles(), Clusters('n=4', 4, optional=True)]
